@@ -220,7 +220,7 @@ func runMatch(bits, pattern, path string) string {
 			route = "reg-panic"
 		} else {
 			conn := newConn([]byte("GET " + path + " HTTP/1.1\r\nHost: example.com\r\n\r\n"))
-			p := recovered(func() string { _ = a.Server().ServeConn(conn); return "" })
+			p := serveWatched(a, conn)
 			switch {
 			case p != "":
 				route = "panic"
